@@ -375,7 +375,7 @@ const HOSTILE_STRINGS: &[&str] = &[
     "", " ", "\u{0}", "\u{feff}", "\u{e9}", "\u{1f44d}", "\u{202e}", "a\nb", "*", "?", "**", "[!a-", "\\", "\\\\", "a\\", ".", "..",
     ":", "::", "@", "@:", "!", "#", "$", "/", "//", "%", "%2", "%zz", "%00", "%ff", "'", "\"", ";", "=", ",", "mxc://",
     "mxc:///", "mxc://a/", "ed25519:", ":x", "https://matrix.to/#/", "matrix:", "m.room.message", "m.", "m.room.", "true", "null", "{}", "[]",
-    "++50", "+5", "0x10", "1e3", "١٢٣", "ſ", "İ", "ß", "\u{fb01}",
+    "++50", "+5", "+", "-", "+ ", " +", " + ", "+\n", "-0", "+0", "00", "0x10", "1e3", "١٢٣", "ſ", "İ", "ß", "\u{fb01}",
 ];
 
 /// Strings whose cost or index arithmetic depends on their size.
